@@ -1978,8 +1978,9 @@ def compute_unique_slug(
         if child.type in ["text", "code_inline"]
     )
     slug = slug_func(title)
+    uniq = slug
     i = 1
-    while slug in slugs:
-        slug = f"{slug}-{i}"
+    while uniq in slugs:
+        uniq = f"{slug}-{i}"
         i += 1
-    return slug
+    return uniq
